@@ -96,7 +96,7 @@ def cmpN (cfg : GenCfg) (n : Node) (v : Val) (p : List Seg) (op : Op) (right : S
       match derefIf i.ptr v with
       | .map _ ks vs =>
         if k.typn == "string" then
-          if k.ptr then cmpN cfg mv (zeroVal mv) rest op right
+          if k.ptr then none     -- `m[&path[d]]`: a fresh pointer never is a key
           else
             match lookupKey ks vs (.str s.text) with
             | some x => cmpN cfg mv x rest op right
